@@ -44,7 +44,8 @@ def trace_back_edge(eng, r, ordn, n):
     ok = len(muts) == 1 and muts[0][1] == "fickle.Interpreter.step" and len(steps) == 1 and len(ons) == 1
     eng.obligations.append(Obligation(f"tracing.Trace.run:inv-keep:one-step-one-report#{n}", "inv-keep", r.hyps(), z3.BoolVal(ok),
                                       where="tracing.Trace.run",
-                                      meta={"clause": "each iteration performs exactly one interpreter.step() and reports its opcode exactly once"}))
+                                      meta={"clause": "each iteration performs exactly one interpreter.step() and reports its opcode exactly once",
+                                            "seen": f"state-changing calls {[e[1] for e in muts]}, steps {len(steps)}, on_opcode reports {len(ons)}"}))
     if ok:
         eng.obligations.append(Obligation(f"tracing.Trace.run:inv-keep:reports-the-stepped-opcode#{n}", "inv-keep", r.hyps(),
                                           ons[0][1].t == steps[0][2].t, where="tracing.Trace.run",
